@@ -13,6 +13,7 @@ func init() {
 			"PV-PAIR: mergeIter.Next copies the popped record out before refilling, refills i.iters[e.iterIdx] into e.record, pushes e only when the source produced a record; false only on empty heap or source error",
 			"PV-WHOLE: init is run-once, ranges over all sources, pushes one element {iterIdx: range index, record} per non-empty source; the heap field is written only through container/heap; sources advanced at exactly two sites",
 			"PV-WHOLE: Err and Close visit every source and aggregate every result",
+			"the openLog origin rule (each container is read under its own id)",
 		},
 		NotDecided: []string{"correctness of container/heap", "global sortedness (follows from the decided protocol + heap correctness + per-source order, argued in DESIGN.md)", "the race detector's dynamic view"},
 		Rules: func(r *Run) {
